@@ -78,6 +78,12 @@ def build(case, order_seed=None, flip=(), slack=None):
         ss.add_bus(buses[i])
     for i in lo:
         ss.add_line(lines[i])
+    if case.get("open_tie"):
+        # a normally open line (a backup between two buses of the tree, out of service) listed with the network's lines
+        a, b = case["open_tie"]
+        t = Line("T", buses[a], buses[b], r=0.05 * ZB, x=0.05 * ZB)
+        t.disconnect()
+        ss.add_line(t)
     return ss, buses, lines
 
 
@@ -298,6 +304,14 @@ def gen(rng, n_cases, exhaustive_upto=0):
         one.count = getattr(one, "count", 0) + 1
         if n > 1 and one.count % 4 == 1:
             case["r"][rng.randrange(1, n)] = 0.0          # a line without resistance (series reactor): boundary value of the constructor
+        if n > 1 and one.count % 4 == 2:
+            g = rng.randrange(n)                       # a pure generator bus: production, no connected load at all
+            case["p"][g] = 0.0; case["q"][g] = 0.0
+            case["pg"][g] = rng.uniform(0.5 * scale, 2 * scale); case["qg"][g] = rng.choice([0.0, rng.uniform(0, scale / 2)])
+        if n >= 4 and one.count % 4 == 0:
+            pairs = [(a, b) for a in range(n) for b in range(a + 1, n) if case["parent"][b] != a and case["parent"][a] != b]
+            if pairs:
+                case["open_tie"] = list(rng.choice(pairs))
         if n > 1 and one.count % 8 == 3:
             case["x"][rng.randrange(1, n)] = 0.0          # ... or without reactance
         return case
@@ -323,7 +337,7 @@ def gen(rng, n_cases, exhaustive_upto=0):
 def run(res):
     rng = random.Random(res.seed * 10061 + 97)
     nc, ex = (250, 4) if res.tier == "quick" else (6000, 6)
-    res.rule = (f"every rooted tree shape with <= {ex} buses (twice, random data) plus random trees / stars / chains of 2..12 buses; line r, x in [0.001, 0.4] pu (every fourth case has a line with r = 0, every eighth one with x = 0), "
+    res.rule = (f"every rooted tree shape with <= {ex} buses (twice, random data) plus random trees / stars / chains of 2..12 buses; line r, x in [0.001, 0.4] pu (every fourth case has a line with r = 0, every eighth one with x = 0; every fourth case has a generator bus without any load, every fourth a normally open line between two buses of the tree in its line list), "
                 "loads up to 0.12 pu per bus, production up to twice the load scale (net exporters), random reference bus; 70% also rebuilt in a shuffled creation / insertion order, "
                 "70% with a random subset of lines stored in the opposite direction, 50% solved first from another reference bus. "
                 "non-trivial = distinct (buses, max. number of children, reference = first bus, production present, lowest voltage to 0.1, flips, reroot) among cases inside the regime V >= 0.85 pu")
